@@ -422,6 +422,9 @@ func (w *World) Classify(op Op) (class string, ok bool) {
 	}
 	c := w.Cur
 	switch op.K {
+	case "locked":
+		// an operation aimed at a name of the locked package cl: without effect
+		return "locked/" + op.N, true
 	case "fail":
 		// an operation that must be refused (unknown package, bad argument,
 		// failing value form): nothing changes
@@ -687,7 +690,7 @@ func (w *World) Apply(op Op, val, step int) {
 	}
 	c := w.Cur
 	switch op.K {
-	case "fail":
+	case "fail", "locked":
 	case "in":
 		w.Cur = op.P
 	case "use":
